@@ -69,6 +69,12 @@ def check_call(it, name, fn, args=(), kwargs=None, post=None, raises=None, pre_s
 
 
 def run_task(task, repo=None, max_paths=MAX_PATHS):
+    import os
+
+    # a retry of a task whose obligation came back `unknown` runs with a multiple of the solver budget
+    scale = float(os.environ.get("PYVC_TIMEOUT_SCALE", "1") or 1)
+    if scale != 1:
+        task.timeout_ms = int(task.timeout_ms * scale)
     t0 = time.time()
     repo = repo or Repo()
     rec = {
